@@ -506,6 +506,9 @@ m("c19-evm-import-storage-needs-code", "C19", "x/evm/genesis.go",
   "\t\tfor _, storage := range account.Storage {\n", "\t\tif len(code) == 0 {\n\t\t\tcontinue\n\t\t}\n\t\tfor _, storage := range account.Storage {\n",
   "x/evm", "storage of code-less accounts is exported but not restored")
 
+m("c19-hand-jail-keeps-power-index", "C19", "app/export.go",
+  "\t\t\tapp.StakingKeeper.DeleteValidatorByPowerIndex(ctx, validator)\n\t\t\tvalidator.Jailed = true", "\t\t\tvalidator.Jailed = true", "leaves-the-power-index",
+  "the zero-height export jails by hand without removing the record from the power index")
 # ---------------- C20 ----------------
 m("c20-no-memstore-rebuild", "C20", "app/app.go",
   "\t\tif app.LastBlockHeight() > 0 {\n\t\t\tapp.CapabilityKeeper.InitMemStore(app.BaseApp.NewUncachedContext(true, tmproto.Header{}))\n\t\t}\n",
